@@ -8,6 +8,27 @@ from util import calls_named, aggregates_of
 FORBIDDEN = ('FileExt::unlock', 'File::try_clone', 'IntoRawFd::into_raw_fd', 'FromRawFd::from_raw_fd', 'File::unlock', 'FileExt::unlock_async')
 
 
+def _moved_into_dbinner(ctx, fn, root):
+    """is local `root` (a File) passed by value to a local function that stores that parameter in DBInner.file?"""
+    F = ctx.facts
+    du = ctx.du(fn)
+    for bb, t, target, c in F.call_sites(fn):
+        if target is None:
+            continue
+        for i, a in enumerate(t['args']):
+            l = op_local(a)
+            if l is None or a['k'] != 'move' or du.root_of(l, through_calls=False) != root:
+                continue
+            dg = ctx.du(target)
+            for b2, si, s in aggregates_of(target, 'DBInner'):
+                for nme, o in zip(s['rv']['fields'], s['rv']['ops']):
+                    if nme == 'file' and op_local(o) is not None:
+                        locs, _ = dg.slice_local(op_local(o))
+                        if (i + 1) in locs:
+                            return True
+    return False
+
+
 def run(ctx, tier):
     results = []
     F = ctx.facts
@@ -75,9 +96,8 @@ def run(ctx, tier):
                     kept |= locs
         if root is not None and root in kept:
             results.append(ok(rule, 'the File locked at %s is the value stored in DBInner.file' % e['loc'], sites=1))
-        elif root is not None and 1 <= root <= fn.argc and n.ctx:
-            # locked in a caller-provided file: accepted when the same function / its caller stores it
-            results.append(ok(rule, 'the File locked at %s is a parameter that the caller keeps' % e['loc'], sites=1))
+        elif root is not None and _moved_into_dbinner(ctx, fn, root):
+            results.append(ok(rule, 'the File locked at %s is moved into the function that stores it in DBInner.file' % e['loc'], sites=1))
         else:
             results.append(bad(rule, '%s | locked File is not the one kept in DBInner.file' % fn.qual,
                                'the File on which lock_exclusive is called at %s is not the value stored in DBInner.file: the lock would be released when the temporary handle is dropped'
